@@ -173,6 +173,9 @@ _add("C07", H("H07_seq", quick={"wall": "140s", "shards": 8, "param": "fixN=4,ma
 # three synonym documents (thesauri may alternate between documents)
 _add("C12", H("H12_syn", quick={"wall": "140s", "shards": 16, "param": "fixSyn=3,emptyTerm=0"}, thorough={"skip": True}))
 
+# external ids of different lengths / prefix relations for DocNumbers, DocID
+_add("C02", H("H02_ids"))
+
 # thorough wall budgets: the first budgeted run of a property gets 600 s, the others 240 s (a thorough check
 # also repeats the quick configurations, which are exhaustive inside their bounds)
 for _pid in PLAN:
